@@ -41,6 +41,10 @@ type svConn struct {
 	goneC   chan struct{} // closed when the client hangs up
 	moreC   chan struct{} // signalled when the client has sent more
 	gone    bool
+	// the client stops READING after the server's stallAfter-th write (0: never): its socket buffer is
+	// full, further writes block until the server closes the connection
+	stallAfter int
+	writes     int
 }
 
 func newSvConn() *svConn {
@@ -138,6 +142,12 @@ func (c *svConn) Write(p []byte) (int, error) {
 		return 0, err
 	}
 	c.mu.Lock()
+	if c.stallAfter > 0 && c.writes >= c.stallAfter && c.closes == 0 {
+		c.mu.Unlock()
+		<-c.closedC
+		return 0, errSvClosed
+	}
+	c.writes++
 	defer c.mu.Unlock()
 	if c.closes > 0 {
 		return 0, errSvClosed
